@@ -152,6 +152,10 @@ def conditions(tier):
     q.append(("small_piece_inside_middle_contig_then_spanning_piece_FFF", gen_arbitrary(n, [("S1", "FFF")], [(0, "S1"), (1, "S1")], sym_strands=False, pstrands=(1, 1),
               region=["l0_0 < a0 and b0 <= l0_0 + l0_1", "a1 <= l0_0 and b1 > l0_0 + l0_1"]), n, 900,
               "input F F F, piece 0 inside the middle contig, piece 1 spanning from the first into the third contig (the middle contig is a terminal row of one lookup and an interior row of the other)"))
+    n = "m2_FGF_bothcut"
+    q.append(("model_two_cuts_FGF_both_contigs_cut_c_bppp", gen_model(n, S_FGF, ((2,), [(0, 0, 2), (1, 0, 1), (2, 0, 0)]), sym_strands=False, pstrands=(1, 1, 1),
+                                                                    extra_pre=("c0_0 < l0_0", "c0_1 > l0_0 + g0_1")), n, 900,
+              "input F G F (forward), TWO cuts, one inside each contig (the overhang-resolution loop runs more than one round), three pieces in three painted Pretext scaffolds reversed, piece strands + + +; the other cut regions and strands are in the thorough tier"))
     q.append(("qc_two_pieces", gen_qc(2), "qc_2", 300, "qc_sub_fragments on 2 ARBITRARY same-named pieces (unbounded coordinates): returns only if they tile an interval of the original length"))
     q.append(("qc_three_pieces", gen_qc(3), "qc_3", 900, "qc_sub_fragments on 3 arbitrary pieces"))
     src_q = HEAD + "".join(x[1] for x in q)
